@@ -84,7 +84,7 @@ def toml_val(v):
 
 
 def render_config(values: dict, style: int, pyproject=False) -> str:
-    """style bit0: kebab(0)/snake(1) keys; bit1: flat(0)/sectioned(1)"""
+    """style bit0: kebab(0)/snake(1) keys; bit1: flat(0)/sectioned(1); bit2 (sectioned pyproject only): no bare [tool.flowmark] header line"""
     snake, sectioned = style & 1, style & 2
     lines = {"formatting": [], "file-discovery": []}
     for s, v in values.items():
@@ -93,7 +93,7 @@ def render_config(values: dict, style: int, pyproject=False) -> str:
     pre = "tool.flowmark." if pyproject else ""
     if sectioned:
         out = []
-        if pyproject:
+        if pyproject and not style & 4:
             out.append("[tool.flowmark]")
         for sec, ls in lines.items():
             if ls:
@@ -217,11 +217,13 @@ def _locate_point(job):
                 if k == "pyp_without":
                     if "pyp_with" in kinds:
                         continue                     # one pyproject.toml per directory: the table wins the file
-                    open(os.path.join(dirs[dpt], "pyproject.toml"), "w").write('[tool.other]\nwidth = 17\n')
+                    # no flowmark table, though the text may mention one
+                    open(os.path.join(dirs[dpt], "pyproject.toml"), "w").write('[tool.other]\nwidth = 17\n' if (idx + dpt) % 2 else
+                                                                               '# [tool.flowmark]\n[tool.other]\nnote = "[tool.flowmark]"\nwidth = 17\n')
                     continue
                 wv = loc_width(dpt, k)
                 widths[wv] = [dpt, k]
-                open(os.path.join(dirs[dpt], KINDFILE[k]), "w").write(render_config({"width": wv}, idx % 4, pyproject=(k == "pyp_with")))
+                open(os.path.join(dirs[dpt], KINDFILE[k]), "w").write(render_config({"width": wv}, (idx + dpt) % 8, pyproject=(k == "pyp_with")))
         os.chdir(dirs[0])
         open("probe.md", "w").write(PROBE)
         rc, fmt, err = run_cli(["probe.md"])
